@@ -40,6 +40,7 @@ DRIFT_BASE = {
 CHUNK = 104
 TRX_SRC = "src/host/trxcon/src/sched_mframe.c"
 FW_SRC = "src/target/firmware/layer1/mframe_sched.c"
+TRX_SCHED_SRC = "src/host/trxcon/src/sched_trx.c"
 
 
 def gen(run):
@@ -72,6 +73,30 @@ def build_trxcon(run):
     o2 = cbuild.obj(run, os.path.join(vf.ROOT, "harness/c/c11_trxcon_harness.c"), "c11_trxcon_harness", includes=inc)
     run.c11_trxcon = cbuild.link(run, [o2, o1], "c11_trxcon_harness.bin")
     return run.c11_trxcon
+
+
+SAN = ["-fsanitize=address,undefined", "-fno-sanitize-recover=all"]
+
+
+def build_sched(run):
+    """harness around the UNCHANGED sched_trx.c + sched_lchan_desc.c (own objects) and the #included
+    sched_mframe.c; clang ASan+UBSan; l1sched_mframe_layout wrapped at link time (guarded table copies)"""
+    if getattr(run, "c11_sched", None):
+        return run.c11_sched
+    mframe.trxcon_names(run)
+    mframe.sched_names(run)
+    inc = [run.scratch, mframe.SHIM_TRXSCHED, mframe.SHIM_TRXCON, mframe.TRXCON_INC]
+    flags = SAN + ["-O0"]
+    objs = [
+        cbuild.obj(run, os.path.join(vf.REPO, TRX_SCHED_SRC), "c11_sched_trx", flags=flags, includes=inc, compiler="clang"),
+        cbuild.obj(run, os.path.join(vf.REPO, mframe.TRXCON_DESC_C), "c11_sched_lchan_desc", flags=flags, includes=inc,
+                   compiler="clang"),
+        cbuild.obj(run, os.path.join(vf.ROOT, "harness/c/c11_sched_harness.c"), "c11_sched_harness",
+                   flags=flags + ['-DC11_SCHED_MFRAME_C="%s"' % os.path.join(vf.REPO, TRX_SRC)], includes=inc, compiler="clang"),
+    ]
+    run.c11_sched = cbuild.link(run, objs, "c11_sched_harness.bin", flags=SAN + ["-Wl,--wrap=l1sched_mframe_layout"],
+                                compiler="clang")
+    return run.c11_sched
 
 
 # ----------------------------------------------------------------------------
